@@ -64,23 +64,31 @@ func isASCII(s string) bool {
 	return true
 }
 
-// c11Allowed: the documented domain of EscapeVersion ("valid file names, no exclamation
-// marks"), through the public CheckFilePath on a single element.
+// Validity is decided INDEPENDENTLY of module.CheckPath / checkElem: by the literal
+// transcription of the doc comments written for C06 (c06.go: c06DocElemOK / c06DocPathOK;
+// literalDots=false, i.e. without the "two dots in a row" clause the implementation does
+// not enforce — known finding K5 of C06 — so that shape stays out of this comparison).
+
+// c11Allowed: the documented domain of EscapeVersion: a valid file-name element without
+// exclamation marks.
 func c11Allowed(v string) bool {
-	return !strings.Contains(v, "/") && !strings.Contains(v, "!") && module.CheckFilePath(v) == nil
+	return !strings.Contains(v, "/") && !strings.Contains(v, "!") && c06DocElemOK(c06File, v, false)
 }
+
+// c11DocPath: a valid module path by the documented rules.
+func c11DocPath(p string) bool { return c06DocPathOK(c06Module, p, false) }
 
 // c11Path: the clauses of the property for one string used as a module path.
 func c11Path(p string) (msg, shape string) {
 	e, cls, _ := c11Esc(module.EscapePath, p, false)
-	valid := module.CheckPath(p) == nil
+	valid := c11DocPath(p)
 	switch {
 	case cls == "panic":
 		return fmt.Sprintf("EscapePath(%q) panicked", p), ""
 	case valid && cls != "ok":
-		return fmt.Sprintf("CheckPath(%q) accepts but EscapePath fails (%s)", p, cls), ""
+		return fmt.Sprintf("%q is a valid module path by the documented rules but EscapePath fails (%s)", p, cls), ""
 	case !valid && cls != "invalid":
-		return fmt.Sprintf("CheckPath(%q) rejects but EscapePath gives %s %q", p, cls, e), ""
+		return fmt.Sprintf("%q is not a valid module path by the documented rules but EscapePath gives %s %q", p, cls, e), ""
 	case !valid:
 		return "", ""
 	}
@@ -133,8 +141,8 @@ func c11Un(path bool, x string) string {
 	if cls != "ok" {
 		return ""
 	}
-	if path && module.CheckPath(p) != nil {
-		return fmt.Sprintf("UnescapePath(%q)=%q which CheckPath rejects", x, p)
+	if path && !c11DocPath(p) {
+		return fmt.Sprintf("UnescapePath(%q)=%q which is not a valid module path by the documented rules", x, p)
 	}
 	if !path && !c11Allowed(p) {
 		return fmt.Sprintf("UnescapeVersion(%q)=%q which is not an allowed version", x, p)
@@ -199,7 +207,7 @@ func c11UpperTail(r *rand.Rand, p string) string {
 // behaviour of interest is on valid paths.
 func c11ValidPath(r *rand.Rand) string {
 	p := gen.ModulePath(r)
-	for i := 0; i < 6 && module.CheckPath(p) != nil; i++ {
+	for i := 0; i < 6 && !c11DocPath(p); i++ {
 		p = gen.ModulePath(r)
 	}
 	return p
@@ -288,8 +296,10 @@ func c11GenEscaped(r *rand.Rand, path bool) string {
 		return e
 	case k < 11:
 		return c11Insert(r, e, "!")
-	case k < 13:
+	case k < 12:
 		return c11Insert(r, e, "!"+pick18(r, "A", "Z", "M", "!", "0", "9", ".", "/", "-", "_", "~", "`", "{", "é", "\xff"))
+	case k < 13: // lower-case letters at the ends of the alphabet after '!'
+		return c11Insert(r, e, pick18(r, "!z", "!a", "!z!z", "!y", "!{", "!`"))
 	case k < 14:
 		return e + "!"
 	case k < 15:
@@ -328,7 +338,13 @@ var c11Reserved = []string{"con", "prn", "aux", "nul", "com1", "com5", "com9", "
 // characters: reserved Windows names in mixed case with and without extensions, trailing /
 // leading / only dots, tilde-digit short names.
 func c11NearElem(r *rand.Rand) string {
-	switch r.Intn(10) {
+	switch r.Intn(14) {
+	case 10, 11: // reserved name followed by TWO OR MORE extensions
+		return c11MixCase(r, pick18(r, c11Reserved...)) + "." + c11MixCase(r, pick18(r, "tar.gz", "v1.0.0", "d.old", "v1.2", "0.0-RC1", "a.b.c", "x.y", "tar.gz.sig", "0.0", "min.js"))
+	case 12: // short name (~digits before the first dot) with several dots
+		return c11MixCase(r, pick18(r, "longna", "progra", "a", "X")) + "~" + pick18(r, "1", "2", "12", "1a", "") + "." + c11MixCase(r, pick18(r, "tar.gz", "v1.0", "a.b.c", "d.old"))
+	case 13: // the only capital letters are 'Z'
+		return pick18(r, "Zeta", "jaZZ", "v1.1.0-Zulu", "Z", "ZZ", "aZ.b", "z.Z", "v1.0.0-rc.Z", "Zz.tar.gz", "nul.Z.z", "conZ", "auxZ.z.z")
 	case 0, 1, 2:
 		return c11MixCase(r, pick18(r, c11Reserved...))
 	case 3, 4:
@@ -349,7 +365,11 @@ func c11NearElem(r *rand.Rand) string {
 // c11NearPath: module paths valid except for one structural rule (or valid), mixed case.
 func c11NearPath(r *rand.Rand) string {
 	dom := pick18(r, "example.com", "github.com", "a.b", "gopkg.in", "x.y.z")
-	switch r.Intn(12) {
+	switch r.Intn(14) {
+	case 12: // the only capital letters are 'Z'
+		return dom + "/" + pick18(r, "Zeta/pkg", "jaZZ", "pkg/Zulu", "Z", "a/Z/b", "lib.Z", "Zz/zZ/v2", "x~Z", "Z_z-Z")
+	case 13: // reserved / short names with two or more dots inside a path
+		return dom + "/" + c11MixCase(r, pick18(r, "aux.tar.gz", "con.v1.2/sub", "longna~1.tar.gz", "com1.d.old", "nul.v1.0.0", "lpt9.a.b.c/x", "pkg/prn.x.y", "aux.tar.gzz", "auxx.tar.gz", "a.aux.tar.gz"))
 	case 0: // missing dot in the first element
 		return pick18(r, "example", "localhost", "Foo", "std") + "/" + c11MixCase(r, "pkg/sub")
 	case 1: // upper case in the first element
@@ -523,7 +543,7 @@ func runC11(c *hx.Ctx) {
 		v := c11NearElem(r)
 		onVersion(v)
 		onUnVersion(c11HandEscape(v))
-		if module.CheckPath(p) != nil {
+		if !c11DocPath(p) {
 			c.Count("near:path-invalid")
 		} else {
 			c.Count("near:path-valid")
